@@ -6143,6 +6143,10 @@ class CodegenCtx:
             # actions of an enclosing foreach) is not for the end of input, which is not a byte; and in an accepting state
             # the parse is complete: the transition that rejects further bytes must not turn the end of input into FAIL
             unconditional_end_transition = None
+        elif unconditional_end_transition is not None and unconditional_end_transition.error_handling and state in self.dfa.accepting_states:
+            # a transition that rejects the end of input explicitly (the head of a regex beginning with a wildcard or an inverted
+            # class lists End among what it does not take): in an accepting state the parse is complete all the same
+            unconditional_end_transition = None
 
         result.add("// possible end transitions")
         
